@@ -111,6 +111,36 @@ func genC18(ctx *Ctx) {
 			}
 		}
 	}
+	// scale: collections of 17, 33, 49, 65, 100 entries (beyond the sizes at which a collection might switch to an index):
+	// lookups, Locate of a new and of an existing name, removals by name and by index, lookups again
+	for which := 0; which < 2; which++ {
+		for _, K := range []int{17, 33, 49, 65, 100} {
+			op := func(code int, name string, arg int) sx.SX { return sx.L(sx.N(code), sx.S(name), sx.N(arg)) }
+			var ups sx.List
+			var ops sx.List
+			for i := 0; i < K; i++ {
+				n := fmt.Sprintf("n%d", i)
+				ops = append(ops, op(0, n, i))
+				ups = append(ups, sx.L(sx.S(n), sx.S(strings.ToUpper(n))), sx.L(sx.S(strings.ToUpper(n)), sx.S(strings.ToUpper(n))))
+			}
+			for _, extra := range []string{"fresh", "FRESH", "other"} {
+				ups = append(ups, sx.L(sx.S(extra), sx.S(strings.ToUpper(extra))))
+			}
+			look := 3 + which // FindIndexByName for variables, FindByName for functions (and the other below)
+			mid, last := fmt.Sprintf("n%d", K/2), fmt.Sprintf("N%d", K-1)
+			ops = append(ops, op(look, mid, 0), op(7-look+0, last, 0))
+			if which == 0 {
+				ops = append(ops, op(5, "fresh", 0), op(3, "FRESH", 0), op(5, "Fresh", 0), op(1, "", 0), op(5, mid, 0), op(1, "", 0))
+				ups = append(ups, sx.L(sx.S("Fresh"), sx.S("FRESH")))
+			} else {
+				ops = append(ops, op(0, "fresh", 7), op(3, "FRESH", 0), op(4, "fresh", 0))
+			}
+			ops = append(ops, op(7, "n1", 0), op(3, mid, 0), op(4, last, 0), op(3, "n1", 0), op(6, "", 0), op(3, mid, 0), op(4, "fresh", 0),
+				op(0, "other", 9), op(4, "OTHER", 0), op(7, "fresh", 0), op(3, "other", 0), op(3, "fresh", 0), op(1, "", 0))
+			ctx.Count("scale-collection")
+			ctx.Input(sx.L(sx.I(0), ops, sx.N(which), ups), true)
+		}
+	}
 	recase := func(s string) string {
 		if strings.HasPrefix(s, "\"") {
 			return s
